@@ -112,14 +112,16 @@ pub(crate) fn execute_with_stream<'i>(
         }
     }
     #[cfg(aquavm_verif)]
-    if let Some([unvisited, unmapped]) = trace_ctx.verif_unclaimed_fold_lore_by_cause(fold_id) {
-        if unvisited.0 + unmapped.0 > 0 {
+    if let Some([unvisited, unreplayed, lost_mapping]) = trace_ctx.verif_unclaimed_fold_lore_by_cause(fold_id) {
+        if unvisited.0 + unreplayed.0 + lost_mapping.0 > 0 {
             crate::verif_hooks::emit(crate::verif_hooks::Event::FoldUnclaimedLoreByCause {
                 fold_id,
                 unvisited_entries: unvisited.0,
                 unvisited_states: unvisited.1,
-                unmapped_entries: unmapped.0,
-                unmapped_states: unmapped.1,
+                unreplayed_entries: unreplayed.0,
+                unreplayed_states: unreplayed.1,
+                lost_mapping_entries: lost_mapping.0,
+                lost_mapping_states: lost_mapping.1,
             });
         }
     }
